@@ -42,6 +42,10 @@ PROBES = ["op:f", "op:a", "op:l", "op:bmc", "op:pp", "op:j", "damaged_before_goo
 
 def gen_plan(rng, tier, run):
     pels, plugins = plug.gen_world(rng, npels=rng.randint(2, 6), fault_rate=rng.choice([0, 1, 2, 3]))
+    for p in pels:
+        if rng.random() < 0.5:
+            # not only serviceable logs: informational / hidden / non-serviceable ones react to selection options
+            p["recipe"]["uh"]["severity"], p["recipe"]["uh"]["action"] = pelgen.gen_class(rng)
     bare = rng.random() < 0.12
     if bare:
         plugins = {}
@@ -64,7 +68,7 @@ def gen_plan(rng, tier, run):
             op["order"] = {"policy": rng.choice(["perm", "asc", "desc"]), "key": rng.randrange(1 << 30)}
         if k in ("f", "a", "bmc") and rng.random() < 0.1:
             op["flags"].append("-x")
-        op["sel"] = rng.choice([["-E"], ["-E"], [], ["-H"], ["-S", "Informational"]])
+        op["sel"] = rng.choice([["-E"], ["-E"], [], ["-H"], ["-S", "Informational"]]) if rng.random() < 0.5 else common.gen_selection(rng)
         ops.append(op)
     registry = common.gen_registry(rng, [p["recipe"] for p in pels]) if rng.random() < 0.4 else None
     return {"pels": pels, "plugins": plugins, "ops": ops, "registry": registry,
